@@ -25,7 +25,7 @@ type c15Case struct {
 	Schedule []int   `json:"schedule,omitempty"` // choice prefix (default choice afterwards)
 }
 
-var c15OpNames = []string{"String(ok)", "String(runtime error)", "String(unknown)", "Response(ok)", "Response(error)", "EvaluateString(ok)", "EvaluateString(error)", "EvaluateFile"}
+var c15OpNames = []string{"String(ok)", "String(runtime error)", "String(unknown)", "Response(ok)", "Response(error)", "EvaluateString(ok)", "EvaluateString(error)", "EvaluateFile", "String(sink)"}
 
 // c15Op runs operation op with the data of thread tid and returns a canonical result.
 func c15Op(tpl *textwire.Template, t Tree, op, tid int) string {
@@ -93,6 +93,15 @@ func c15Op(tpl *textwire.Template, t Tree, op, tid int) string {
 			if err != nil {
 				return "err|" + err.Error()
 			}
+			return "out|" + out
+		})
+	case 8:
+		res = safe(func() string {
+			out, e := tpl.String("sink", d)
+			if e != nil {
+				return outcomeKey(failOutcome(e))
+			}
+			// shuffle()/rand() may vary: the sink page only prints values derived from them that do not
 			return "out|" + out
 		})
 	default:
